@@ -170,7 +170,7 @@ void parse_raw(RawResp& r) {
 }
 // headers + blank line; body sent at once unless withheld (then only if the daemon stays silent)
 RawResp raw_request(int src, const std::vector<std::pair<std::string, std::string>>& headers, const std::vector<std::uint8_t>& body,
-                    bool withhold, bool send_body_late) {
+                    bool withhold, bool send_body_late, int silence_ms = 100) {
     RawResp r;
     int s = connect_from(src);
     if (s < 0) { r.status = "NONE"; return r; }
@@ -182,7 +182,7 @@ RawResp raw_request(int src, const std::vector<std::pair<std::string, std::strin
         send_str(s, h + bodystr);
     } else {
         send_str(s, h);
-        if (wait_readable(s, 300)) r.early = true;
+        if (wait_readable(s, silence_ms)) r.early = true;
         else if (send_body_late) send_str(s, bodystr);
         else ::shutdown(s, SHUT_WR);
     }
@@ -277,7 +277,7 @@ void do_req(const ev::Cmd& c) {
     std::vector<std::uint8_t> body;
     ev::Ev e("req");
     e.i("t", vclock::now_ns() / 1000000).s("cmd", cmd).i("tokcfg", g_d->tokcfg ? 1 : 0).i("src", src).i("c", label_of(ch, sz));
-    bool wellformed = true, withhold = false, late = true;
+    bool wellformed = true, withhold = false, late = true, overcap = false;
     std::string wire_cmd = cmd;
     if (cmd == "FETCH-STREAM" || cmd == "FETCH-OUT") wire_cmd = "FETCH";
     hs.push_back({c.i("lc", 0) ? "command" : "COMMAND", wire_cmd});
@@ -300,6 +300,7 @@ void do_req(const ev::Cmd& c) {
         hs.push_back({"PAYLOAD-LENGTH", declared});
         if (is_canonical_uint(declared) || declared == "0") e.s("lenkind", "num").i("len", std::atol(declared.c_str()));
         else e.s("lenkind", "huge").i("len", -1);
+        overcap = !(is_canonical_uint(declared) || declared == "0") || std::atol(declared.c_str()) > g_d->cap;
         withhold = c.s("body", "send") == "withhold";
         late = (declared == std::to_string(body.size()));
         // store proof-of-work
@@ -345,7 +346,8 @@ void do_req(const ev::Cmd& c) {
     std::string order;
     for (const auto& [k, v] : hs) order += (order.empty() ? "" : ",") + k;
     e.s("order", order);
-    RawResp r = raw_request(src, hs, body, withhold, late);
+    // an over-cap declaration must be answered without the body: give a loaded machine time before calling it silence
+    RawResp r = raw_request(src, hs, body, withhold, late, overcap ? 4000 : 100);
     e.b("wf", wellformed).s("status", r.status).s("code", r.code);
     e.b("autherr", r.code.find("UNAUTH") != std::string::npos || r.code.find("AUTH") != std::string::npos || r.code.find("FORBIDDEN") != std::string::npos || r.code.find("DENIED") != std::string::npos);
     e.b("withheld", withhold).b("early", r.early);
